@@ -359,10 +359,19 @@ func ConstOfObj(obj types.Object) VM {
 		if c == nil || c.Value == nil {
 			return false
 		}
+		if c.Value.Kind() != k.Val().Kind() && !(c.Value.Kind() == constant.Int && k.Val().Kind() == constant.Int) {
+			return false
+		}
 		if !constant.Compare(c.Value, token.EQL, k.Val()) {
 			return false
 		}
-		return types.Identical(c.Type(), k.Type()) || types.Identical(types.Default(c.Type()), types.Default(k.Type()))
+		// constants of a defined type (codes.Code, connectivity.State, ...) must
+		// keep that type; plain numeric/string constants may be converted.
+		if _, basic := k.Type().(*types.Basic); basic {
+			_, cb := c.Type().Underlying().(*types.Basic)
+			return cb
+		}
+		return types.Identical(c.Type(), k.Type())
 	}
 }
 
@@ -1163,3 +1172,51 @@ func SliceOf(x, low, high VM) VM {
 
 // FieldCall matches a call through a func-typed struct field.
 func FieldCall(f *types.Var) CM { return ValueCall(FieldLoad(f)) }
+
+// CallWith: a call matching cm whose argument idx satisfies vm (the value is
+// the call itself or any extract of it).
+func CallWith(cm CM, idx int, vm VM) VM {
+	return func(v ssa.Value) bool {
+		v = strip(v)
+		if e, ok := v.(*ssa.Extract); ok {
+			v = e.Tuple
+		}
+		c, ok := v.(*ssa.Call)
+		if !ok || !cm(&c.Call) {
+			return false
+		}
+		return idx < len(c.Call.Args) && vm(c.Call.Args[idx])
+	}
+}
+
+// DerefOf matches *p with p satisfying vm.
+func DerefOf(vm VM) VM {
+	return func(v ssa.Value) bool {
+		u, ok := strip(v).(*ssa.UnOp)
+		return ok && u.Op == token.MUL && vm(u.X)
+	}
+}
+
+// ExtractOf matches result #idx of a tuple-valued instruction satisfying vm.
+func ExtractOf(vm VM, idx int) VM {
+	return func(v ssa.Value) bool {
+		e, ok := strip(v).(*ssa.Extract)
+		return ok && e.Index == idx && vm(e.Tuple)
+	}
+}
+
+// phiEdgesNeed: for every phi edge of p whose value satisfies vm, the facts on
+// that edge must include fm. Returns (edges matching, edges satisfying).
+func phiEdgesNeed(p *ssa.Phi, vm VM, fm FM) (int, int) {
+	n, ok := 0, 0
+	for i, e := range p.Edges {
+		if !vm(e) {
+			continue
+		}
+		n++
+		if _, has := hasFact(edgeFacts(p.Block().Preds[i], p.Block()), fm); has {
+			ok++
+		}
+	}
+	return n, ok
+}
